@@ -5,6 +5,7 @@ use crate::{Ctx, Recorder};
 pub mod c07;
 pub mod c08;
 pub mod c22;
+pub mod c23;
 pub mod c25;
 pub mod c27;
 pub mod c29;
@@ -18,6 +19,7 @@ pub fn dispatch(ctx: &Ctx) -> i32 {
         "C07" => c07::run(ctx, &mut rec),
         "C08" => c08::run(ctx, &mut rec),
         "C22" => c22::run(ctx, &mut rec),
+        "C23" => c23::run(ctx, &mut rec),
         "C25" => c25::run(ctx, &mut rec),
         "C27" => c27::run(ctx, &mut rec),
         "C29" => c29::run(ctx, &mut rec),
